@@ -315,6 +315,35 @@ def gen_deviations(tier):
 
 
 # ------------------------------------------------------------------------------------------------
+# loops whose body disturbs the loop's own table: every outer loop form x every inner construct that takes and releases a
+# lock on the same table x every mutation of the table x use of the iterator afterwards. Accepted or refused - never a
+# dangling iterator.
+def gen_structure(tier):
+    elems = {"i": ("5", "a = a + 1;", "1"), "s": ('"elem-of-a-table-long-enough-for-the-heap"', 'a = a + "x";', '"y"'), "t": ("tab(3, 1)", "a.concat(2);", "tab(1, 9)")}
+    outers = ["forall a in t loop %s end loop;", "forall a in t desc loop %s end loop;", "for k in 0 to 1 loop forall a in t loop %s end loop; end loop;",
+              "n = 0; while n < 2 loop n = n + 1; forall a in t loop %s end loop; end loop;", "forall a in t loop forall a2 in t loop %s end loop; end loop;"]
+    inners = ["", "forall b in t loop nop; end loop;", "forall b in t loop break; end loop;", "forall b in t desc loop continue; end loop;",
+              "begin forall b in t loop raise e1; end loop; exception when others then nop; end;",
+              "forall b in t loop forall c in t loop nop; end loop; end loop;", "begin raise e2; exception when e2 then nop; end;",
+              "if true then forall b in t loop nop; end loop; end if;"]
+
+    def gen():
+        n = 0
+        for ek, (ev, use, one) in elems.items():
+            muts = ["t.concat(tab(100, %s));" % one, "t.concat(%s);" % one, "t.delete(0);", "t.insert(0, %s);" % one, "t.put(0, %s);" % one, "t = tab(50, %s);" % one,
+                    "t = null;", "t.concat(t);", "u = t; u.delete(0);", ""]
+            for o in outers:
+                for i in inners:
+                    for m in muts:
+                        body = "%s %s print a; %s" % (i, m, use)
+                        text = "t = tab(3, %s); %s print t.count();" % (ev, o % body)
+                        yield Case("s%d" % n, [op_ctx(), op_run(text), op_run(text, route="capi"), op_run("t.concat(%s); print t.count();" % one)],
+                                   {"kind": "structure", "t": text})
+                        n += 1
+    return gen
+
+
+# ------------------------------------------------------------------------------------------------
 def check(case, res):
     vs = generic_safety(case, res)
     nontrivial = False
@@ -389,14 +418,15 @@ def run(tier):
     t0 = time.time()
     deadline = t0 + (3000 if tier == "thorough" else 420)
     total = Result()
-    for name, g in (("bytes", gen_bytes(tier)), ("tokens", gen_tokens(tier)), ("deviations", gen_deviations(tier)), ("vocabulary", gen_vocab(tier))):
+    for name, g in (("bytes", gen_bytes(tier)), ("tokens", gen_tokens(tier)), ("deviations", gen_deviations(tier)), ("vocabulary", gen_vocab(tier)),
+                    ("structure", gen_structure(tier))):
         total.merge(explore("%s-%s-%s" % (PROP, tier, name), g, check, chunk=400, deadline=deadline))
     total.merge(cli_pass(CLI_REPS, tier, t0))
     rule = ("(1) all byte strings of length <=2 and length 3 (4, 5 in thorough) over scanner character classes; (2) all token strings of length <=3 (4) "
             "over representative tokens in a context with a variable, table, tuple and function; (3) every truncation, token deletion, adjacent token "
             "swap, token duplication and single-byte substitution of %d valid seed programs; (4) every builtin, operator, type method and @rank with every "
             "argument tuple over a boundary value alphabet (typical, boundary, typed null, untyped null, literal and variable forms); each through the "
-            "C++ and the C API; (5) seeds and crash representatives through the bloc command (file and stdin). Non-trivial: at least one step got past "
+            "C++ and the C API; (4b) every outer loop form x inner construct locking the same table x mutation of the iterated table x use of the iterator; (5) seeds and crash representatives through the bloc command (file and stdin). Non-trivial: at least one step got past "
             "the parser (ran or raised a runtime error)" % len(SEEDS))
     return finish(PROP, tier, total, check, rule, t0,
                   assumptions=["clang 14 ASan+UBSan detect the invalid accesses", "allocation sizes capped at 65536 (out of the property's domain above)",
